@@ -435,7 +435,7 @@ theorem hostsFirst_split (seen : List Str) (a : List Nested) (x : Nested) (b : L
     standard's `SeesIn` over the final table of its host. -/
 theorem nested_run_exact (g : List Scope) (ns : List Nested) (k : Nat) (order : List Str)
     (hu : UniqueNames g) (hb : NoBareRename g) (hr : NoRepeatedRemote g) (hp : NoEffectivePrivate g)
-    (hs : NoShadow g k) (hd : NestedDisjoint g ns) (hpw : NestedNamesDistinct ns)
+    (hs : NoShadow g k) (hl : LegalAccess g) (hq : NoProtectedOverPrivate g) (hd : NestedDisjoint g ns) (hpw : NestedNamesDistinct ns)
     (ht : isTopoN g ns [] order = true)
     (x : Nested) (hx : x ∈ ns) (m : Scope) (hm : m ∈ g) (hroot : m.name = x.root) (hin : x.root ∈ order)
     (hhf : hostsFirst [x.root] (ns.filter (fun y => y.root == x.root)))
@@ -524,13 +524,13 @@ theorem nested_run_exact (g : List Scope) (ns : List Nested) (k : Nat) (order : 
   rw [hhost] at hk
   rw [hself, hhost]
   refine nested_exact g k S2 _ x.scope hu hb' hr' ?_ ?_ hs' hamb hk l e
-  · intro u hu' n hn q hq
+  · intro u hu' n hn q hq'
     obtain ⟨hng, hpre, heq⟩ := hmods u hu' n hn
-    rw [heq] at hq
-    exact (sound_run g k hu hb hp hs pre n hng).1 q hq
+    rw [heq] at hq'
+    exact (sound_run g k hu hb hp hs hq pre n hng).1 q hq'
   · intro u hu' n hn r e' hex
     obtain ⟨hng, hpre, heq⟩ := hmods u hu' n hn
     rw [heq]
-    exact (complete_run g k hu hb hr pre (isTopo_of_isTopoN g ns pre [] htpre) n hng hpre).1 r e' hex
+    exact (complete_run g k hu hb hr hl pre (isTopo_of_isTopoN g ns pre [] htpre) n hng hpre).1 r e' hex
 
 end Ford.Use
